@@ -3,7 +3,7 @@ import Driver.Util
 import Driver.ClusterStream
 /-
 stream tree (C08)
-  in   ops=<op>,...   op ::= rt<name> | sc<path>:<name> | ch<path> | st<path> | po<path> | ss<path> | cr<path> | hp<path> | rh<path>
+  in   ops=<op>,...   op ::= rt<name> | rx<name> | sc<path>:<name> | ch<path> | st<path> | po<path> | ss<path> | cr<path> | hp<path> | rh<path> | tp<path>
        (a path is dot separated: r.a.b)
   impl ok | spawned=<id> | children=<ids> parent=<id|-> | done order=X:<path>:<registered>,... | HANG order=... | held | released | skip
 The order in which siblings are shut down is Go map order: the model column is compared with a
@@ -40,6 +40,8 @@ def treeCase (inp impl : String) : CaseOut :=
       let arg := rest op 2
       let plain (st : TreeSt) (o : String) (tag : String) := (st, out ++ [o], view ++ [got], fails, tags ++ [tag], i + 1)
       if kind = "rt" then plain { st with live := st.live ++ [[arg]] } "ok" "root"
+      -- rx: as rt; the user context given WithContext is already cancelled, which has no bearing on the tree
+      else if kind = "rx" then plain { st with live := st.live ++ [[arg]] } "ok" "root-with-cancelled-user-context"
       else if kind = "sc" then
         match arg.splitOn ":" with
         | [ps, name] =>
@@ -77,9 +79,12 @@ def treeCase (inp impl : String) : CaseOut :=
           -- the held node handles its own pill now and goes, with its subtree
           plain { live := stopAt st.live p, pilled := st.pilled.erase p } "released" "release"
         else plain st "skip" "skip"
-      else if kind = "st" || kind = "po" || kind = "ss" || kind = "cr" then
+      else if kind = "st" || kind = "po" || kind = "ss" || kind = "cr" || kind = "tp" then
         let p := parsePath arg
         if !st.live.contains p then plain st "skip" "skip" else
+        -- tp: the parent shuts down and, while it waits for a slow child, a third party stops a sibling: needs
+        -- two children and nothing held below; the outcome is that of any other shutdown of the subtree
+        if kind = "tp" && ((childrenOf st.live p).length < 2 || st.pilled.any fun h => h = p || below h p) then plain st "skip" "skip" else
         let sub := subtreeOf st.live p
         let blocked := st.pilled.any fun h => below h p
         -- what the implementation printed
